@@ -276,12 +276,22 @@ func c03History[T comparable](r *R, o *c03Obs, st *c03Stats, dec func(int64) T, 
 				vs := readVals() // a fresh slice: FromSlice takes ownership of it
 				cur0 = cmpOf(c)
 				h0 = heap.FromSlice(vs, cur0)
-			case 11, 12:
+			case 11, 12, 16, 17:
 				var t *heap.Heap[T]
-				if code == 11 {
+				switch code {
+				case 11:
 					t = h0.Merge(h1)
-				} else {
+				case 12:
 					t = h0.Meld(h1)
+				case 16:
+					// the receiver as its own argument.  The model has no notion of two handles on one
+					// heap: the generator places these calls only where h1 is a separately built heap with
+					// the contents the code will find in the argument (a twin of h0 for Merge, an empty
+					// heap for Meld, whose receiver is emptied before the argument is read), and the wire
+					// decoder reads 16 / 17 as Merge / Meld with h1
+					t = h0.Merge(h0)
+				default:
+					t = h0.Meld(h0)
 				}
 				a := c03Sorted(h0.GetValues(), enc)
 				b := c03Sorted(h1.GetValues(), enc)
@@ -441,7 +451,7 @@ func execC03(in []int64) []int64 {
 }
 
 var c03OpNames = map[int]string{1: "Push", 2: "Pop", 3: "Peek", 4: "Clear", 5: "Convert", 6: "Delete", 7: "Size",
-	8: "IsEmpty", 9: "GetValues", 10: "FromSlice", 11: "Merge", 12: "Meld", 13: "Swap", 14: "PushN", 15: "Swap2"}
+	8: "IsEmpty", 9: "GetValues", 10: "FromSlice", 11: "Merge", 12: "Meld", 13: "Swap", 14: "PushN", 15: "Swap2", 16: "MergeSelf", 17: "MeldSelf"}
 var c03CmpNames = map[int]string{0: "<", 1: ">", 2: "key<", 3: "key>"}
 
 func c03CmpName(c int) string {
@@ -513,6 +523,10 @@ func describeC03(in []int64) string {
 			sb.WriteString(" h2,h0=h0,h0.Merge(h1)")
 		case 12:
 			sb.WriteString(" h2,h0=h0,h0.Meld(h1)")
+		case 16:
+			sb.WriteString(" h2,h0=h0,h0.Merge(h0) [h1 is a twin of h0]")
+		case 17:
+			sb.WriteString(" h2,h0=h0,h0.Meld(h0) [h1 is empty]")
 		case 13:
 			sb.WriteString(" swap(h0,h1)")
 		case 15:
@@ -840,6 +854,27 @@ func genC03(g *Gen) {
 					})
 				}
 			}
+		}
+	}
+	// 5a. SELF: the receiver as its own argument (two handles on one heap).  h.Merge(h) must hand out every
+	//     element twice and leave h alone; h.Meld(h) must hand out every element ONCE (the receiver is emptied
+	//     before the argument is read) and leave h empty.  h1 is prepared as the twin / the empty heap the
+	//     model's Merge / Meld takes as argument (see exec, codes 16 and 17).
+	for _, s := range setups {
+		for n := 0; n <= 4; n++ {
+			seqsExact(len(vals), n, func(seq []int) {
+				xs := make([]int, len(seq))
+				for i, k := range seq {
+					xs[i] = vals[k]
+				}
+				twin := []c03Op{c03FromSliceOp(s.c0, xs), {13}, c03FromSliceOp(s.c0, xs)}
+				empty := []c03Op{c03FromSliceOp(s.c0, nil), {13}, c03FromSliceOp(s.c0, xs)}
+				for _, tl := range [][]c03Op{{}, {{2}}, {{1, 10}, {2}}, {{15}, {1, 0}, {15}, {2}}} {
+					g.Count("self-merge/meld")
+					c03Emit(g, "exhaustive", c03Hist(s.ty, s.c0, s.c1, cat(twin, []c03Op{{16}}, tl)))
+					c03Emit(g, "exhaustive", c03Hist(s.ty, s.c0, s.c1, cat(empty, []c03Op{{17}}, tl)))
+				}
+			})
 		}
 	}
 	g.Exhaustive("exhaustive")
